@@ -1109,6 +1109,13 @@ def extract_registry(prog):
         if isinstance(node, ast.Expr) and isinstance(node.value, ast.Call) and dotted(node.value.func) == "TRANSFORMS.update":
             found_update = True
             arg = node.value.args[0]
+            if isinstance(arg, ast.Name) and len(tm.globals.get(arg.id, [])) == 1 and tm.globals[arg.id][0] is not None:
+                arg = tm.globals[arg.id][0]  # a module-level table bound once
+            if isinstance(arg, ast.Call) and dotted(arg.func) == "dict" and len(arg.args) == 1 and not arg.keywords:
+                arg = arg.args[0]
+            if isinstance(arg, (ast.Tuple, ast.List)) and all(isinstance(e, ast.Tuple) and len(e.elts) == 2 for e in arg.elts):
+                # a sequence of (name, callable) pairs: later pairs win, as in dict.update
+                arg = ast.Dict(keys=[e.elts[0] for e in arg.elts], values=[e.elts[1] for e in arg.elts])
             if not isinstance(arg, ast.Dict):
                 raise AnalysisError("TRANSFORMS.update argument is not a dict display")
             for k, v in zip(arg.keys, arg.values):
